@@ -108,21 +108,26 @@ ServerShapes ==
 (* http://other.example.com instead                                                      *)
 (* ("psschemes": the last template's path item declares http://other.example.com and     *)
 (* https://other.example.com)                                                            *)
-OverrideKeys == {"psfirst", "pslast", "psschemes"}
+(* ("psrel": the first template's path item declares the relative server /b; "psvar": it  *)
+(* declares http://{x}.example.com, a host variable named like a path variable)           *)
+OverrideKeys == {"psfirst", "pslast", "psschemes", "psrel", "psvar"}
 LastOverrideKeys == {"pslast", "psschemes"}
 OwnServers(sk) == CASE sk = "psfirst" -> <<OtherHost>> [] sk = "pslast" -> <<OtherEnc>> [] sk = "psschemes" -> <<OtherHost, OtherHttps>>
+                    [] sk = "psrel" -> <<[abs |-> FALSE, base |-> <<"b">>, slash |-> FALSE]>>
+                    [] sk = "psvar" -> <<[OtherHost EXCEPT !.host = <<[v |-> "x", d |-> "other"], L("example"), L("com")>>]>>
 ServerKeys == DOMAIN ServerShapes \cup OverrideKeys
 SrvRank(k) == CASE k = "none" -> 1 [] k = "rel" -> 2 [] k = "relslash" -> 3 [] k = "relroot" -> 4
                 [] k = "abs" -> 5 [] k = "absvar" -> 6 [] k = "two" -> 7 [] k = "psfirst" -> 8 [] k = "pslast" -> 9
                 [] k = "relpfx" -> 10 [] k = "abspfx" -> 11 [] k = "schemes" -> 12 [] k = "ports" -> 13 [] k = "dup" -> 14
                 [] k = "absbv" -> 15 [] k = "relbv" -> 16 [] k = "absbvx" -> 17 [] k = "relbvx" -> 18 [] k = "abshx" -> 19
                 [] k = "abspx" -> 20 [] k = "psschemes" -> 21 [] k = "absschv" -> 22 [] k = "schvdup" -> 23
+                [] k = "psrel" -> 24 [] k = "psvar" -> 25
 
 WithOwn(t, svs) == [segs |-> t.segs, ops |-> t.ops, servers |-> svs]
 Doc(tm, sk) ==
    LET ts == Templates(tm) IN
    IF sk \in OverrideKeys
-   THEN LET w == IF sk = "psfirst" THEN 1 ELSE Len(ts) IN
+   THEN LET w == IF sk \in LastOverrideKeys THEN Len(ts) ELSE 1 IN
         [templates |-> [k \in 1..Len(ts) |-> IF k = w THEN WithOwn(ts[k], OwnServers(sk)) ELSE ts[k]], servers |-> <<AbsV1>>]
    ELSE [templates |-> ts, servers |-> ServerShapes[sk]]
 
